@@ -222,7 +222,7 @@ func TestC08(t *testing.T) {
 			rg.gw.Delete(bg, &hydrapb.DeleteRequest{Swamps: []*hydrapb.DeleteRequest_SwampKeys{{IslandID: 1, SwampName: sw, Keys: []string{"r1"}}}})
 		}},
 		{"Set(new r9: s=x n=float64 5)", func(rg *rigT, sw string) {
-			c08set(rg, sw, c08rec{"r9", map[string]any{"s": "x", "n": float64(5), "b": true, "m": map[string]any{"k": "v"}}, 90, 190, 1090})
+			c08set(rg, sw, c08rec{"r9", map[string]any{"s": "x", "n": float64(5), "b": true, "m": map[string]any{"k": "v"}}, 90, 195, 1090})
 		}},
 		{"Patch(r2: SET s=x, DELETE n)", func(rg *rigT, sw string) {
 			rg.gw.PatchTreasures(bg, &hydrapb.PatchTreasuresRequest{IslandID: 1, SwampName: sw, Patches: []*hydrapb.TreasurePatch{{Key: "r2", Ops: []*hydrapb.PatchOp{
@@ -239,7 +239,7 @@ func TestC08(t *testing.T) {
 	for _, m := range muts {
 		mn = append(mn, m.name)
 	}
-	type item struct{ f, q, m, phase int }
+	type item struct{ f, q, m, phase, m2 int }
 	var items []item
 	for fi := range filters {
 		for mi := range muts {
@@ -247,12 +247,18 @@ func TestC08(t *testing.T) {
 				if mi == 0 && ph == 1 {
 					continue
 				}
-				items = append(items, item{fi, -1, mi, ph})
+				items = append(items, item{fi, -1, mi, ph, -1})
+				if !r.Quick() && mi != 0 {
+					// thorough: a second mutation after the first (always with the index built in between)
+					for m2 := 1; m2 < len(muts); m2++ {
+						items = append(items, item{fi, -1, mi, ph, m2})
+					}
+				}
 			}
 		}
 	}
 	r.Extra["filters"], r.Extra["mutations"], r.Extra["queries_per_item"] = fn, mn, len(queries)
-	r.Rule = fmt.Sprintf("swamp of 8 records with MessagePack bodies (s: strings and nil; n: the value 5 as int8/int64/uint8/float64, 5.5, the string \"5\", int32 7; b: bool or missing; t: string arrays incl. empty; m.k: string or int8; one empty body; distinct created/updated times, two records without expiry) on the in-process server; %d filter trees (single Equal legs over every compare-value kind incl. float-vs-integer, bool, STRING_IN/INT32_IN/INT64_IN, nested path m.k, wildcard t[*], index t[0], t#len and t.#len; an indexable leg AND residual legs with labels on both; OR unions with labels; AND with an OR sub-group) x %d mutations (none; Set changing the indexed fields; Delete; Set of a new record; Patch SET+DELETE of indexed fields; Set replacing the body by a typed value) applied before the field index is built or after it was built by a first query x %d paging/ordering requests (4 index types x ASC/DESC x From/Limit combinations, MaxResults, time windows, IncludedKeys/ExcludeKeys). Each request is answered twice by the real GetByIndexStream: as given, and wrapped as OR{SubGroups:[filter]} which the planner never accelerates. Oracle: same records, same order (records with equal sort key may swap), same match labels. Non-trivial = requests whose scan answer is non-empty", len(filters), len(muts), len(queries))
+	r.Rule = fmt.Sprintf("swamp of 8 records with MessagePack bodies (s: strings and nil; n: the value 5 as int8/int64/uint8/float64, 5.5, the string \"5\", int32 7; b: bool or missing; t: string arrays incl. empty; m.k: string or int8; one empty body; distinct created/updated times, two records without expiry) on the in-process server; %d filter trees (single Equal legs over every compare-value kind incl. float-vs-integer, bool, STRING_IN/INT32_IN/INT64_IN, nested path m.k, wildcard t[*], index t[0], t#len and t.#len; an indexable leg AND residual legs with labels on both; OR unions with labels; AND with an OR sub-group) x %d mutations (none; Set changing the indexed fields; Delete; Set of a new record; Patch SET+DELETE of indexed fields; Set replacing the body by a typed value) applied before the field index is built or after it was built by a first query (thorough: followed by every second mutation) x %d paging/ordering requests (4 index types x ASC/DESC x From/Limit combinations, MaxResults, time windows, IncludedKeys/ExcludeKeys). Each request is answered twice by the real GetByIndexStream: as given, and wrapped as OR{SubGroups:[filter]} which the planner never accelerates. Oracle: same records, same order (records with equal sort key may swap), same match labels. Non-trivial = requests whose scan answer is non-empty", len(filters), len(muts), len(queries))
 	r.Assumptions = []string{"the wrapped filter selects the same records by the filter semantics (an OR over one sub-group); the scan route is the reference", "single client"}
 	r.Parallel(16, "TestC08", func() {
 		type res struct {
@@ -272,6 +278,10 @@ func TestC08(t *testing.T) {
 				c08ask(rg, sw, queries[0], f.g) // builds the field index of the indexed leg
 			}
 			muts[it.m].run(rg, sw)
+			if it.m2 >= 0 {
+				c08ask(rg, sw, queries[0], f.g)
+				muts[it.m2].run(rg, sw)
+			}
 			o := &res{}
 			out[i] = o
 			wrapped := &hydrapb.FilterGroup{Logic: hydrapb.FilterLogic_OR, SubGroups: []*hydrapb.FilterGroup{proto.Clone(f.g).(*hydrapb.FilterGroup)}}
@@ -298,6 +308,9 @@ func TestC08(t *testing.T) {
 			f := filters[it.f]
 			ph := []string{"before-index-built", "after-index-built"}[it.phase]
 			cs := map[string]any{"filter": f.name, "mutation": muts[it.m].name, "mutation_phase": ph}
+			if it.m2 >= 0 {
+				cs["second_mutation"] = muts[it.m2].name
+			}
 			if x, ok := bad[i]; ok {
 				r.Eval(1)
 				r.Fail("routes", "query-never-returns-or-panics", fmt.Sprintf("filter %s, mutation %s (%s): deadlock=%v panics=%v", f.name, muts[it.m].name, ph, x.Deadlock, x.Panics), cs)
